@@ -67,6 +67,16 @@ pub trait Arbitrary: Sized {
     fn any() -> Self;
 }
 
+/// Arrays of bytes: Kani draws a primitive array as one value (`any_raw_array`), so playback records one blob of N bytes.
+impl<const N: usize> Arbitrary for [u8; N] {
+    fn any() -> Self {
+        let b = next(N);
+        let mut a = [0u8; N];
+        a.copy_from_slice(&b);
+        a
+    }
+}
+
 macro_rules! prim {
     ($($t:ty),*) => { $(
         impl Arbitrary for $t {
